@@ -110,6 +110,7 @@ type TD struct {
 	gateFiring bool
 	gateEpoch int
 	stuck     bool
+	autoFailed bool
 	dead      bool
 	injDone   map[string]bool
 }
@@ -190,6 +191,11 @@ func NewTD(rec *Recorder, sc *Scenario) *TD {
 		res := "ok"
 		if !ok {
 			res = "fail"
+			if kind == "readyall" || kind == "ante" || kind == "blinds" || kind == "next" || kind == "create" {
+				d.hmu.Lock()
+				d.autoFailed = true
+				d.hmu.Unlock()
+			}
 		}
 		d.rec.Emit("spy", a, res, d.te, nil, nil, false)
 	}
@@ -412,6 +418,21 @@ func (d *TD) settle() string {
 			d.serviceGate(p)
 			stableSince = time.Time{}
 			continue
+		}
+		d.hmu.Lock()
+		af := d.autoFailed
+		d.hmu.Unlock()
+		if af {
+			// a step the engine performs by itself failed in the backend: nothing retries it, the hand stays where it is
+			if d.stuck {
+				return "auto-step-failed"
+			}
+			time.Sleep(20 * time.Millisecond) // the error event is emitted from its own goroutine
+			d.stuck = true
+			a := mkArgs()
+			a.Note, a.Kind = "auto-step-failed", "fault"
+			d.rec.Emit("stuck", a, "", d.te, nil, nil, false)
+			return "auto-step-failed"
 		}
 		reason := d.pending()
 		ev := d.rec.Events()
